@@ -2,6 +2,7 @@ package lib
 
 import (
 	"fmt"
+	"strings"
 	"sync"
 	"sync/atomic"
 )
@@ -41,7 +42,15 @@ func (c *Check) RunSeq(spec SeqSpec) SeqStats {
 	var explore func(path []int)
 	quiet := false // level-1 nodes are visited by every shard but counted by shard 0 only
 	visit := func(path []int) (expand bool) {
-		key, stop := spec.Run(path)
+		var key string
+		var stop bool
+		if p := Catch(func() { key, stop = spec.Run(path) }); p != "" {
+			// a panic of the implementation under test is a violation of every property ("never crashes"), not a
+			// harness failure
+			first := strings.SplitN(p, "\n", 2)[0]
+			c.Violate(Violation{Sig: fmt.Sprintf("panic %s: %s path=%v", spec.Name, first, path), Detail: p, Replay: map[string]any{"path": path, "spec": spec.Name}})
+			key, stop = "", true
+		}
 		if quiet {
 			return !stop && spec.Depth-len(path) > 0
 		}
